@@ -202,6 +202,44 @@ def cli_replay_columns(cols):
     return rep
 
 
+def cli_replay_zipmode(col):
+    """zip members with stored unix modes (set-uid only, set-gid only, plain, everything, a directory, a link): the column of each member
+    must be the one its STORED mode gives"""
+    def rep():
+        import os, tempfile, shutil, subprocess, zipfile
+        exe = common.native_binary()
+        d = tempfile.mkdtemp(prefix='verif-c04zm-', dir=common.SCRATCH_ROOT)
+        try:
+            zp = os.path.join(d, 'a.zip')
+            modes = {'suid': 0o104755, 'sgid': 0o102755, 'plain': 0o100644, 'all': 0o107777, 'none': 0o100000, 'adir/': 0o040750, 'alink': 0o120777, 'wonly': 0o100222}
+            z = zipfile.ZipFile(zp, 'w')
+            for n, mo in modes.items():
+                zi = zipfile.ZipInfo(n); zi.create_system = 3; zi.external_attr = mo << 16
+                z.writestr(zi, '' if n.endswith('/') else 'data')
+            z.close()
+            sql = col_sql(col)
+            r = subprocess.run([exe, 'name, %s from %s archives' % (sql, d)], env={'PATH': os.environ['PATH'], 'HOME': d, 'TZ': 'UTC'}, stdout=subprocess.PIPE, stderr=subprocess.PIPE, timeout=20)
+            rows = dict(l.split('\t') for l in r.stdout.decode().split('\n')[:-1] if '\t' in l)
+            bad = []
+            for n, mo in modes.items():
+                got = rows.get('[a.zip] ' + n)
+                if col in ('IsDir', 'IsFile', 'IsSymlink'):
+                    continue            # these three are not taken from the stored mode (family wiring does not claim them for members)
+                if col in TYPE_COLS:
+                    want = 'true' if (mo & IFMT) == TYPE_COLS[col] else 'false'
+                elif col in PERM_COLS:
+                    msk, val = PERM_COLS[col]
+                    want = 'true' if (mo & msk) == val else 'false'
+                else:
+                    continue
+                if got != want:
+                    bad.append((n, oct(mo), got, want))
+            return bool(bad), '%s of zip members by their stored mode: %s' % (sql, ('member %r (stored mode %s): %r, expected %r' % bad[0]) if bad else 'all %d members as stored' % len(modes))
+        finally:
+            shutil.rmtree(d, ignore_errors=True)
+    return rep
+
+
 def cli_replay_nomode(col):
     """a zip whose member has no unix mode (create_system = 0, external_attr = 0) inside an archive file with all permission bits set"""
     def rep():
@@ -302,7 +340,7 @@ def fam_wiring(sess, only_zip=False):
                     sess.violated(name, 'wiring/' + col + '/zip-nomode', 'a member without a stored mode reports %s = true' % col, {'column': col}, cli_replay_nomode(col), fam)
                     return
                 sess.violated(name, 'wiring/' + col + ('/zip' if archived else ''), 'the column is not the attribute it names (mode %s)' % oct(m.eval(mode, model_completion=True).as_long()),
-                              {'column': col}, cli_replay_columns([col]), fam)
+                              {'column': col}, cli_replay_zipmode(col) if (archived and (col in TYPE_COLS or col in PERM_COLS)) else cli_replay_columns([col]), fam)
             ex.explore(run, on_path)
             if not box.get('viol') and not box.get('bad'):
                 sess.discharged('wiring %s%s' % (col, ' (zip member without a stored mode)' if archived == 'nomode' else ' (zip member)' if archived else ''), family=fam, queries=box.get('paths', 1))
